@@ -12,7 +12,7 @@ PROPERTY = 'C01'
 LEVEL = 'exploration'
 RULE = (
     'random programs of 1-8 concurrent activities (4%: plus a crowd of 70-300 sleepers with pairwise distinct dates) built from timed waits (delay, ==, >=, <, '
-    'instant, eternity), nested Scope/until blocks with time notifications (date conditions also as one object shared by several waits and blocks) and children started '
+    'instant, eternity), nested Scope/until blocks with time notifications (date conditions and `time + d` objects also as one object shared by several waits and blocks) and children started '
     'now/after d/at t; dates from a colliding dyadic grid (a quarter of the programs: inexact decimal fractions instead) incl. zero, past, equal and infinite '
     'dates; start times {-5,0,0.5,7,1e6,2**53,1e17} (the last two make small delays vanish in float rounding); every logged resume time is compared with the '
     'arithmetic clock model and kernel clock/due-time monitors run on every activation; '
@@ -59,6 +59,7 @@ class TimingGen:
         self.rng = rng
         self.count = 0
         self.shared = []
+        self.pauses = []
         self.decimal = rng.random() < 0.25
         self.grid = DEC_GRID if self.decimal else GRID
         self.dates = DEC_DATES if self.decimal else DATES
@@ -85,6 +86,13 @@ class TimingGen:
             if rng.random() < 0.03:
                 # an infinite *relative* delay elapses when the clock reaches infinity
                 return {'k': 'delay', 'd': float('inf')}
+            if rng.random() < 0.2:
+                # one `time + d` *object* (pause = time + 10) used by several waits and blocks
+                # that begin at different times and overlap: each of them takes d
+                if len(self.pauses) < 2 and (not self.pauses or rng.random() < 0.4):
+                    self.pauses.append({'k': 'delay', 'd': rng.choice(
+                        [d for d in self.grid if d > 0]), 'share': 'p%d' % len(self.pauses)})
+                return dict(rng.choice(self.pauses))
             delay = rng.choice(self.grid)
             return {'k': 'delay', 'd': delay} if delay > 0 else {'k': 'instant'}
         if roll < 0.75 and rng.random() < 0.3:
